@@ -63,6 +63,39 @@ func (s *Session) localCellLookupAt(fr *Frame, st *State, at *ssa.BasicBlock, at
 	return s.localLookupFiltered(fr, st, at, atIdx, true)
 }
 
+// localCellLocAt: the memory cell of a local variable whose address is taken (a struct whose fields are assigned, a
+// variable captured by a closure), for `modifies` items that name one of its fields.
+func (s *Session) localCellLocAt(fr *Frame, st *State, at *ssa.BasicBlock, atIdx int) func(string) (*Loc, bool) {
+	if fr.locals == nil {
+		fr.locals = localIndex(fr.fn)
+	}
+	return func(name string) (*Loc, bool) {
+		var best *localDef
+		bestKey := [2]int{-1, -1}
+		defs := fr.locals[name]
+		for i := range defs {
+			d := &defs[i]
+			if !d.isAddr {
+				continue
+			}
+			if !(d.blk == at && d.idx < atIdx) && !d.blk.Dominates(at) {
+				continue
+			}
+			if _, known := fr.vals[d.val]; !known {
+				continue
+			}
+			key := [2]int{domDepth(d.blk), d.idx}
+			if key[0] > bestKey[0] || (key[0] == bestKey[0] && key[1] > bestKey[1]) {
+				best, bestKey = d, key
+			}
+		}
+		if best == nil {
+			return nil, false
+		}
+		return s.toLoc(s.valueOf(fr, best.val)), true
+	}
+}
+
 func (s *Session) localLookupFiltered(fr *Frame, st *State, at *ssa.BasicBlock, atIdx int, cellsOnly bool) func(string) (Val, bool) {
 	if fr.locals == nil {
 		fr.locals = localIndex(fr.fn)
@@ -156,6 +189,7 @@ func (s *Session) evalClauseMode(fr *Frame, c Clause, st *State, at *ssa.BasicBl
 	if at != nil {
 		se.lookup = s.localLookupAt(fr, st, at, atIdx)
 		se.lookupCell = s.localCellLookupAt(fr, st, at, atIdx)
+		se.lookupLoc = s.localCellLocAt(fr, st, at, atIdx)
 		if fr.loopEntry != nil {
 			se.pre = fr.loopEntry[at]
 		}
